@@ -26,6 +26,31 @@ def churn_family(k):
     out["churn_call_with_array"] = mk([Set("acc", Bin("+", V("acc"), Call("sum2", ALit("int", [V("i"), V("i")]))))],
                                       [Func("sum2", [("z", "array<int>")], "int", [Ret(Bin("+", Call("at", V("z"), I(0)), Call("at", V("z"), I(1))))])])
     out["churn_closure"] = mk([Let("g", "fn(int) -> int", V("inc")), Set("acc", Call("g", V("acc")))], [inc])
+    its = lambda e: Call("int_to_string", e)
+    key = lambda: Bin("+", S("k-"), its(V("i")))
+    MSI, MSS = "HashMap<string, int>", "HashMap<string, string>"
+    out["churn_remove_at_strings"] = mk([Let("a", "array<string>", ALit("string", [its(V("i")), Bin("+", S("m"), its(V("i"))), S("tail")]), True),
+                                         Set("a", Call("array_remove_at", V("a"), I(0))), Set("acc", Bin("+", V("acc"), Call("str_length", Call("at", V("a"), I(0)))))])
+    out["churn_remove_at_rows"] = mk([Let("m", "array<array<int>>", ALit("array<int>", [ALit("int", [V("i")]), ALit("int", [V("i"), I(2)]), ALit("int", [I(3)])]), True),
+                                      Set("m", Call("array_remove_at", V("m"), I(1))), Set("acc", Bin("+", V("acc"), Call("array_length", Call("at", V("m"), I(1)))))])
+    out["churn_slice_strings"] = mk([Let("a", "array<string>", ALit("string", [its(V("i")), S("b"), Bin("+", S("c"), its(V("i")))])),
+                                     Let("b", "array<string>", Call("array_slice", V("a"), I(1), I(2))), Set("acc", Bin("+", V("acc"), Call("str_length", Call("at", V("b"), I(1)))))])
+    out["churn_map_put_remove"] = mk([Let("m", MSI, Call("map_new")), Ex(Call("map_put", V("m"), key(), V("i"))), Ex(Call("map_put", V("m"), S("fixed"), V("i"))),
+                                      Ex(Call("map_remove", V("m"), key())), Set("acc", Bin("+", V("acc"), Call("map_size", V("m"))))])
+    out["churn_map_outer_put_remove"] = Program([T, Func("main", [], "int", [Let("acc", "int", I(0), True), Let("m", MSI, Call("map_new")),
+                                                 For("i", I(0), I(k), [Ex(Call("map_put", V("m"), key(), V("i"))), Ex(Call("map_remove", V("m"), key())),
+                                                                       Set("acc", Bin("+", V("acc"), Call("map_size", V("m"))))]), Println(V("acc")), Ret(I(0))])],
+                                                structs=families.STRUCTS, enums=families.ENUMS, unions=families.UNIONS)
+    out["churn_map_overwrite_values"] = Program([T, Func("main", [], "int", [Let("acc", "int", I(0), True), Let("m", MSS, Call("map_new")),
+                                                 For("i", I(0), I(k), [Ex(Call("map_put", V("m"), S("slot"), Bin("+", S("v"), its(V("i"))))),
+                                                                       Set("acc", Bin("+", V("acc"), Call("str_length", Call("map_get", V("m"), S("slot")))))]), Println(V("acc")), Ret(I(0))])],
+                                                structs=families.STRUCTS, enums=families.ENUMS, unions=families.UNIONS)
+    out["churn_map_get_missing_string"] = mk([Let("m", MSS, Call("map_new")), Let("s", "string", Call("map_get", V("m"), key())), Set("acc", Bin("+", V("acc"), Call("str_length", V("s"))))])
+    out["churn_tuple_temp"] = mk([Set("acc", Bin("+", V("acc"), Call("str_length", TIdx(Call("pair", V("i")), 1))))],
+                                 [Func("pair", [("n", "int")], "(int, string)", [Ret(TLit([V("n"), Bin("+", S("p"), its(V("n")))]))])])
+    out["churn_extern_string_arg"] = mk([Set("acc", Bin("+", V("acc"), Call("bstr_utf8_length", Bin("+", S("é"), its(V("i"))))))])
+    out["churn_cast_string"] = mk([Let("s", "string", Call("cast_string", V("i"))), Set("acc", Bin("+", V("acc"), Call("str_length", V("s"))))])
+    out["churn_substring"] = mk([Let("s", "string", Call("str_substring", Bin("+", S("abcdef"), its(V("i"))), I(2), I(3))), Set("acc", Bin("+", V("acc"), Call("str_length", V("s"))))])
     out["churn_pop"] = mk([Let("a", "array<string>", ALit("string", [Call("int_to_string", V("i")), S("k")]), True), Let("s", "string", Call("array_pop", V("a"))),
                            Set("acc", Bin("+", V("acc"), Call("str_length", V("s"))))])
     return out
@@ -80,7 +105,7 @@ def corpus(ctx):
     for i in range(25 if ctx.tier == "quick" else 300):
         progs["gen_%d_%d" % (ctx.seed, i)] = (Gen(ctx.seed * 5000011 + i).program(), False)
     for i in range(10 if ctx.tier == "quick" else 100):       # HashMap objects: entries hold references too
-        progs["genmap_%d_%d" % (ctx.seed, i)] = (Gen(ctx.seed * 5000011 + 500000 + i, features={"maps": True}).program(), False)
+        progs["genmap_%d_%d" % (ctx.seed, i)] = (Gen(ctx.seed * 5000011 + 500000 + i, features={"maps": True, "fnvals": i % 2 == 1}).program(), False)
     return progs
 
 
